@@ -2,6 +2,8 @@
 
 package netpoll
 
+import "sync/atomic"
+
 // ghost poller used by the pool-manager harnesses
 type verifPoll struct {
 	id      int
@@ -9,7 +11,13 @@ type verifPoll struct {
 	closed  bool
 }
 
-func (p *verifPoll) Wait() error                                    { p.running = true; return nil }
+func (p *verifPoll) Wait() error {
+	if verifMgrPO {
+		return nil
+	}
+	p.running = true
+	return nil
+}
 func (p *verifPoll) Close() error                                   { p.closed = true; return nil }
 func (p *verifPoll) Trigger() error                                 { return nil }
 func (p *verifPoll) Control(operator *FDOperator, e PollEvent) error { return nil }
@@ -47,7 +55,16 @@ func verifHarness_C18_roundrobin(s int) {
 var verifMgrPolls [12]*verifPoll
 var verifMgrN int
 
+// set by the partial-order harness in its prologue: pollers are only counted there
+var verifMgrPO bool
+var verifMgrOpened int32
+var verifMgrSpare *verifPoll
+
 func verifMgrOpenPoll() (Poll, error) {
+	if verifMgrPO {
+		atomic.AddInt32(&verifMgrOpened, 1)
+		return verifMgrSpare, nil
+	}
 	p := &verifPoll{id: verifMgrN}
 	verifMgrPolls[verifMgrN] = p
 	verifMgrN++
@@ -120,4 +137,3 @@ func verifHarness_C18_reconfig(a int) {
 	verifMgrCheck(m, c, "C18/phase3")
 	verifReach("end")
 }
-
